@@ -383,9 +383,21 @@ READERS = {"AmplitudeChain": ("decaylanguage.modeling.amplitudechain", "Amplitud
            "GooFitPyChain": ("decaylanguage.modeling.goofit", "GooFitPyChain")}
 
 
+def _derived(n, attr):
+    """A derived public attribute of an amplitude node (full_amp, L, ls_enum); an exception is an answer too."""
+    try:
+        v = getattr(n, attr)
+    except Exception as e:  # noqa: BLE001 - e.g. L of a leaf, ls_enum of an unimplemented lineshape
+        return "raise:" + type(e).__name__
+    if isinstance(v, complex):
+        return [repr(v.real), repr(v.imag)]
+    return getattr(v, "name", None) or repr(v)
+
+
 def _line_obs(ln):
     def node(n):
-        return {"p": str(n.particle), "name": n.name, "ls": n.lineshape, "sf": n.spinfactor, "d": [node(x) for x in n.daughters]}
+        return {"p": str(n.particle), "name": n.name, "ls": n.lineshape, "sf": n.spinfactor, "d": [node(x) for x in n.daughters],
+                "L": _derived(n, "L"), "ls_enum": _derived(n, "ls_enum"), "full_amp": _derived(n, "full_amp")}
 
     return {"str": str(ln), "amp": [repr(ln.amp.real), repr(ln.amp.imag)], "err": [repr(ln.err.real), repr(ln.err.imag)],
             "fix": bool(ln.fix), "tree": node(ln)}
